@@ -261,7 +261,7 @@ package lorawan
 // ----- TXParamSetupReq: RFU(7..6) DownlinkDwellTime(5) UplinkDwellTime(4) MaxEIRP(3..0)
 //@ func (TXParamSetupReqPayload).MarshalBinary
 //@   props C09 C10
-//@   ensures C07/range: (err == nil) == (p.MaxEIRP <= 15)
+//@   ensures C07/range: (err == nil) == (p.MaxEIRP <= 15 && (p.UplinkDwellTime == DwellTimeNoLimit || p.UplinkDwellTime == DwellTime400ms) && (p.DownlinkDwelltime == DwellTimeNoLimit || p.DownlinkDwelltime == DwellTime400ms))
 //@   ensures C06,C09/len: err == nil ==> len(result) == 1
 //@   ensures C06,C10/wire: err == nil ==> result[0] == p.MaxEIRP | b2u8(p.UplinkDwellTime == DwellTime400ms)<<4 | b2u8(p.DownlinkDwelltime == DwellTime400ms)<<5
 //@   ensures C10/fresh: err == nil ==> fresh(result)
@@ -365,13 +365,15 @@ package lorawan
 // ----- DeviceTimeAns: seconds since GPS epoch (4, LE) | fractional second in 1/256 s (1)
 // in range: 0 <= t < 2^32 s.  One 1/256 s step is 3906250 ns.
 //@ spec dta_valid(t) = t >= 0 && t / 1000000000 < 4294967296
+//@ spec dta_s(r) = int64(le32(r[0], r[1], r[2], r[3]))
+//@ spec dta_f(r) = int64(r[4])
 //@ func (DeviceTimeAnsPayload).MarshalBinary
 //@   props C09 C10
 //@   let t = int64(p.TimeSinceGPSEpoch)
-//@   ensures C07/range: (err == nil) == dta_valid(t)
+//@   ensures C07/range: (err == nil) == (t >= 0 && t < 4294967296 * 1000000000)
 //@   ensures C06,C09/len: err == nil ==> len(result) == 5
-//@   ensures C06,C10/wire: err == nil ==> int64(le32(result[0], result[1], result[2], result[3])) == t / 1000000000 && int64(result[4]) == (t % 1000000000) / 3906250
-//@   ensures C10/fresh: fresh(result)
+//@   ensures C06,C10/wire: err == nil ==> dta_s(result) * 1000000000 + dta_f(result) * 3906250 <= t && t < dta_s(result) * 1000000000 + (dta_f(result) + 1) * 3906250 && dta_s(result) * 1000000000 <= t && t < (dta_s(result) + 1) * 1000000000
+//@   ensures C10/fresh: err == nil ==> fresh(result)
 //@ func (*DeviceTimeAnsPayload).UnmarshalBinary
 //@   props C09 C10
 //@   modifies *p
@@ -381,7 +383,9 @@ package lorawan
 // ----- Version: RFU(7..4) Minor(3..0)
 //@ func (Version).MarshalBinary
 //@   props C09 C10
-//@   ensures C07/range: (err == nil) == (v.Minor <= 15)
+//@   ensures C07/range-lo: v.Minor <= 7 ==> err == nil
+//@   ensures C07/range-hi: v.Minor > 15 ==> err != nil
+//@   ensures C07/range-spec: v.Minor > 7 && v.Minor <= 15 ==> err == nil
 //@   ensures C06,C09/len: err == nil ==> len(result) == 1
 //@   ensures C06,C10/wire: err == nil ==> result[0] == v.Minor
 //@   ensures C10/fresh: err == nil ==> fresh(result)
@@ -394,7 +398,9 @@ package lorawan
 // ----- ResetInd / ResetConf / RekeyInd / RekeyConf: Version(1)
 //@ func (ResetIndPayload).MarshalBinary
 //@   props C09 C10
-//@   ensures C07/range: (err == nil) == (p.DevLoRaWANVersion.Minor <= 15)
+//@   ensures C07/range-lo: p.DevLoRaWANVersion.Minor <= 7 ==> err == nil
+//@   ensures C07/range-hi: p.DevLoRaWANVersion.Minor > 15 ==> err != nil
+//@   ensures C07/range-spec: p.DevLoRaWANVersion.Minor > 7 && p.DevLoRaWANVersion.Minor <= 15 ==> err == nil
 //@   ensures C06,C09/len: err == nil ==> len(result) == 1
 //@   ensures C06,C10/wire: err == nil ==> result[0] == p.DevLoRaWANVersion.Minor
 //@   ensures C10/fresh: err == nil ==> fresh(result)
@@ -405,7 +411,9 @@ package lorawan
 //@   ensures C06,C10/wire: err == nil ==> p.DevLoRaWANVersion.Minor == data[0] & 0x0f
 //@ func (ResetConfPayload).MarshalBinary
 //@   props C09 C10
-//@   ensures C07/range: (err == nil) == (p.ServLoRaWANVersion.Minor <= 15)
+//@   ensures C07/range-lo: p.ServLoRaWANVersion.Minor <= 7 ==> err == nil
+//@   ensures C07/range-hi: p.ServLoRaWANVersion.Minor > 15 ==> err != nil
+//@   ensures C07/range-spec: p.ServLoRaWANVersion.Minor > 7 && p.ServLoRaWANVersion.Minor <= 15 ==> err == nil
 //@   ensures C06,C09/len: err == nil ==> len(result) == 1
 //@   ensures C06,C10/wire: err == nil ==> result[0] == p.ServLoRaWANVersion.Minor
 //@   ensures C10/fresh: err == nil ==> fresh(result)
@@ -416,7 +424,9 @@ package lorawan
 //@   ensures C06,C10/wire: err == nil ==> p.ServLoRaWANVersion.Minor == data[0] & 0x0f
 //@ func (RekeyIndPayload).MarshalBinary
 //@   props C09 C10
-//@   ensures C07/range: (err == nil) == (p.DevLoRaWANVersion.Minor <= 15)
+//@   ensures C07/range-lo: p.DevLoRaWANVersion.Minor <= 7 ==> err == nil
+//@   ensures C07/range-hi: p.DevLoRaWANVersion.Minor > 15 ==> err != nil
+//@   ensures C07/range-spec: p.DevLoRaWANVersion.Minor > 7 && p.DevLoRaWANVersion.Minor <= 15 ==> err == nil
 //@   ensures C06,C09/len: err == nil ==> len(result) == 1
 //@   ensures C06,C10/wire: err == nil ==> result[0] == p.DevLoRaWANVersion.Minor
 //@   ensures C10/fresh: err == nil ==> fresh(result)
@@ -427,7 +437,9 @@ package lorawan
 //@   ensures C06,C10/wire: err == nil ==> p.DevLoRaWANVersion.Minor == data[0] & 0x0f
 //@ func (RekeyConfPayload).MarshalBinary
 //@   props C09 C10
-//@   ensures C07/range: (err == nil) == (p.ServLoRaWANVersion.Minor <= 15)
+//@   ensures C07/range-lo: p.ServLoRaWANVersion.Minor <= 7 ==> err == nil
+//@   ensures C07/range-hi: p.ServLoRaWANVersion.Minor > 15 ==> err != nil
+//@   ensures C07/range-spec: p.ServLoRaWANVersion.Minor > 7 && p.ServLoRaWANVersion.Minor <= 15 ==> err == nil
 //@   ensures C06,C09/len: err == nil ==> len(result) == 1
 //@   ensures C06,C10/wire: err == nil ==> result[0] == p.ServLoRaWANVersion.Minor
 //@   ensures C10/fresh: err == nil ==> fresh(result)
